@@ -213,7 +213,7 @@ func runC10(c *Ctx, r *Report) {
 			for _, b := range f2.Blocks {
 				for _, ins := range b.Instrs {
 					st, ok := ins.(*ssa.Store)
-					if !ok || !strings.HasSuffix(pathOf(st.Addr), ".bytes.limit") {
+					if !ok || !strings.HasSuffix(pathOf(st.Addr), ".bytes.limit") || c.isResetStore(st) {
 						continue
 					}
 					nLimit++
@@ -273,22 +273,18 @@ func runC10(c *Ctx, r *Report) {
 		why := "no decode call"
 		for _, ci := range allCalls(fn) {
 			if f := ci.Common().StaticCallee(); f != nil && f.Name() == "decode" {
-				al, isAlloc := ci.Common().Args[0].(*ssa.Alloc)
 				_, isParam := ci.Common().Args[1].(*ssa.Parameter)
-				switch {
-				case !isAlloc:
-					why = "decoder is not a fresh allocation"
-				case !inLoop(al.Block()):
-					why = "the decoder is allocated outside the loop: state (buffered bytes, definitions, timestamps) leaks from one file to the next"
-				case !isParam:
+				if !isParam {
 					why = "decode is not given the caller's reader"
-				default:
+				} else {
 					ok = true
-					why = "fresh decoder per chained file on the same reader"
+					why = "decode is given the caller's reader itself"
 				}
 			}
 		}
-		r.check(ok, "C10-R4-chaining", "DecodeChained/fresh-decoder", c.pos(fn.Pos()), why, why)
+		r.check(ok, "C10-R4-chaining", "DecodeChained/same-reader", c.pos(fn.Pos()), why, why)
+		// fresh decoder per file, or a complete re-initialisation (perfile.go)
+		perFileRule(c, r, "C10-R4-chaining", nil, "buffered bytes, counters, definitions or timestamps of one file are seen by the next, so a chained file does not decode as it does alone")
 	}
 	for _, e := range []struct{ name, ret string }{{"DecodeHeader", ".h"}, {"DecodeHeaderAndFileID", ".h"}, {"Decode", ".file"}, {"CheckIntegrity", ""}} {
 		fn := c.ssaFn(c.fn(c.fit, e.name))
@@ -451,6 +447,10 @@ func c10Counters(c *Ctx, r *Report) {
 					continue
 				}
 				key := fmt.Sprintf("%s/%s", fn.Name(), p)
+				if c.isResetStore(st) {
+					r.ok("C10-R2-counter-pairing", key, c.pos(st.Pos()), "zeroed between files by a function decoding cannot reach")
+					continue
+				}
 				if fn.Name() == "fill" {
 					// fill may reset i, j to a constant and add the read count to j; it must not touch n
 					if isN {
